@@ -161,8 +161,9 @@ class FCFG(CFG):
                     body_component = body_component[5:-1]
                 else:
                     type_component = ""
-                if body_component[0] in string.ascii_uppercase or \
-                        type_component == "VAR":
+                if type_component != "TER" and (
+                        body_component[0] in string.ascii_uppercase or
+                        type_component == "VAR"):
                     body_component, body_conditions = _split_text_conditions(body_component)
                     body_fs = FeatureStructure.from_text(body_conditions, structure_variables)
                     all_body_fs.append(body_fs)
